@@ -241,7 +241,9 @@ def check_life(pid, tier, seed):
                         "trace_head": trace_excerpt(files, j["run"], 12)})
     cov = {"states": dist, "transitions": gen, "traces_validated_against_impl": len(jobs), "samples": samples,
            "design_instances": mstats, "tlc_schedules_replayed": sstats, "random_schedules": len(jobs) - sum(sstats.values()),
-           "trace_lines_judged": nlines, "known_finding_runs": len(kn), "exhaustive": False, "amplified_runs": amplified,
+           "trace_lines_judged": nlines, "known_finding_runs": len(kn), "exhaustive": False,
+           # (leads depend on which edges TLC's random sampling printed: not a measure of the work done)
+           "amplification": f"{len(leads)} lead run(s) in which another predicate failed, {amplified} amplified re-run(s)",
            "runs_in_which_another_predicate_failed": others,
            "conformance": {n: {"runs": st["runs"], "lines": st["lines"], "drift_lines": len(st["drift"]),
                                "verdict": "accepted" if not st["drift"] else "drift"} for n, st in conf.items()},
